@@ -4,7 +4,6 @@ import (
 	"encoding/json"
 	"fmt"
 	"math/big"
-	"math/rand/v2"
 	"sort"
 	"testing"
 
